@@ -48,6 +48,9 @@ func world(thorough bool) *chainlab.World {
 var W *chainlab.World
 
 func runHist(h []int, _ json.RawMessage) (out xplore.Out) {
+	if len(h) > 0 && h[0] == tieMarker {
+		return runTie(h)
+	}
 	in, err := W.NewInst()
 	if err != nil {
 		return xplore.Out{Viols: []xplore.Viol{{Key: "infra-newnode", What: err.Error()}}}
@@ -156,6 +159,7 @@ func main() {
 	}
 	run := ev.Start("C11", "model_checking")
 	spec.MaxDepth = len(W.Events)
+	ties(run, spec, thorough)
 	st := xplore.BFS(run, spec)
 	concurrent(run, thorough)
 	W = world(thorough)
